@@ -15,7 +15,7 @@ structure Route where
   method : String
   pats : List String
   h : H
-  deriving Repr
+  deriving Repr, DecidableEq
 
 abbrev Table := List Route
 
@@ -49,8 +49,7 @@ def oneVarPerPosition (tbl : Table) : Bool :=
 
 /-- the variable names of one pattern are pairwise distinct. -/
 def distinctNames (pats : List String) : Bool :=
-  let names := (pats.filter isVar).map varName
-  names.length == names.eraseDups.length
+  decide ((pats.filter isVar).map varName).Nodup
 
 def candidates (tbl : Table) (m : String) (toks : List String) : List Route :=
   tbl.filter fun r => r.method == m && matchesP r.pats toks
@@ -72,7 +71,7 @@ inductive Expect where
   | handler (r : Route)
   | notAllowed (allow : List String)
   | notFound
-  deriving Repr
+  deriving Repr, DecidableEq
 
 /-- what the property demands for a request (cleaned tokens; `none` = path not rooted ⇒ nothing matches). -/
 def expect (tbl : Table) (m : String) (toks : Option (List String)) : Expect :=
